@@ -160,6 +160,21 @@ def binding_menu(out, expr, layouts, loop_ranks, quick):
                 {"component": "Mem", "bindings": mem_bindings(t, rank, ["coord", "payload"], fmt=fn)},
                 {"component": "Buf2", "bindings": mem_bindings(t, rank, t1, evict=evs[0], style=s1, fmt=fn)},
                 {"component": "Buf", "bindings": mem_bindings(t, rank, t2, evict=evs[0], style=s2, fmt=fn)}]))
+    # one tensor kept eagerly at two levels from two different roots (outer buffer: the subtree below an outer rank,
+    # inner buffer: the subtree below the next rank)
+    for t in tensors:
+        lay = layouts[(out, t)][1]
+        if len(lay) < 2 or lay[-2] not in loop_ranks or lay[-1] not in loop_ranks:
+            continue
+        fn = format_name(layouts, out, t)
+        r1, r2 = lay[-2], lay[-1]
+        p1 = loop_ranks.index(r1)
+        if p1 == 0 or loop_ranks.index(r2) < p1:
+            continue
+        menu.append(("buf2e:%s.%s+%s" % (t, r1, r2), [
+            {"component": "Mem", "bindings": mem_bindings(t, r1, ["coord", "payload"], fmt=fn)},
+            {"component": "Buf2", "bindings": mem_bindings(t, r1, ["coord"], evict=loop_ranks[p1 - 1], style="eager", fmt=fn)},
+            {"component": "Buf", "bindings": mem_bindings(t, r2, ["coord"], evict=r1, style="eager", fmt=fn)}]))
     # sequencer over 1-2 loop ranks
     for n in (1, 2):
         for rs in itertools.combinations(loop_ranks, n):
@@ -324,8 +339,10 @@ def configs(quick, maxb=None):
                     # a merger whose init-ranks mix ranks across a dynamic partitioning is accepted but emits a dump that reads
                     # a tensor variable that never exists (known finding F16): one specific instance is kept
                     continue
-                memkeys = [l.split(":")[1].split("@")[0].split("/")[0] for l in labels if l.startswith(("buf:", "cache:", "buf2x:"))]
+                memkeys = [l.split(":")[1].split("@")[0].split("/")[0] for l in labels if l.startswith(("buf:", "cache:", "buf2x:", "buf2e:"))]
                 if len(memkeys) != len(set(memkeys)):
+                    continue
+                if any(l.startswith("buf2e:") for l in labels) and len({k.split(".")[0] for k in memkeys}) != len(memkeys):
                     continue
                 if len({l.split(":")[0] for l in labels if l.startswith("is")}) > 1 and quick:
                     continue
